@@ -894,7 +894,11 @@ impl<'de> de::Deserializer<'de> for &mut Deserializer<'de> {
             // construct types
             TypeInner::Opt(_) => self.deserialize_option(visitor),
             // This is an optimization for blob, mostly likely used by IDLValue, but it won't help the native Vec<u8>
-            TypeInner::Vec(_) if self.expect_type.is_blob(&self.table) => {
+            // Only when the wire type is a blob as well: any other vector type goes through the
+            // element-wise path below, which applies the subtyping rules (`vec empty <: vec nat8`).
+            TypeInner::Vec(_)
+                if self.expect_type.is_blob(&self.table) && self.wire_type.is_blob(&self.table) =>
+            {
                 self.deserialize_blob(visitor)
             }
             TypeInner::Vec(_) => self.deserialize_seq(visitor),
@@ -1216,6 +1220,10 @@ impl<'de> de::Deserializer<'de> for &mut Deserializer<'de> {
     }
     fn deserialize_byte_buf<V: Visitor<'de>>(self, visitor: V) -> Result<V::Value> {
         self.unroll_type()?;
+        if matches!(self.wire_type.as_ref(), TypeInner::Vec(_)) && !self.wire_type.is_blob(&self.table) {
+            // not a blob on the wire: decode element-wise under the subtyping rules
+            return self.deserialize_seq(visitor);
+        }
         check!(
             *self.expect_type == TypeInner::Vec(TypeInner::Nat8.into())
                 && *self.wire_type == TypeInner::Vec(TypeInner::Nat8.into()),
